@@ -37,7 +37,10 @@ func PadPKCS7(buf []byte, size int) ([]byte, error) {
 	bufLen := len(buf)
 	padLen := size - bufLen%size
 	padding := bytes.Repeat([]byte{byte(padLen)}, padLen)
-	return append(buf, padding...), nil
+	// Copy into a new slice so the caller's buffer (including its spare capacity) is never written to
+	padded := make([]byte, bufLen, bufLen+padLen)
+	copy(padded, buf)
+	return append(padded, padding...), nil
 }
 
 // UnpadPKCS7 removes PKCS#7 from a message.
